@@ -67,3 +67,41 @@ def ns_sx(ns):
     if ns is None:
         return '()'
     return '(' + ' '.join(f'({s_str(k)} {s_str(v)})' for k, v in ns.items()) + ')'
+
+
+# ---- the same structure as Coq terms (for gen/ConstGen.v)
+def cq_str(x):
+    return '[' + '; '.join(str(ord(c)) for c in x) + ']%N' if x else '(@nil N)'
+
+
+def cq_opt(v, f):
+    return 'None' if v is None else '(Some ' + f(v) + ')'
+
+
+def cq_pat(p):
+    if p is None:
+        return 'None'
+    a, _, _ = t1_regex.translate(p.pattern, p.flags)
+    return '(Some ' + t1_regex.coq_re(a) + ')'
+
+
+def cq_list(items):
+    return '[' + '; '.join(items) + ']'
+
+
+def cq_sel(s):
+    if isinstance(s, ct.SelectorNull):
+        return 'SNull'
+    tag = 'None' if s.tag is None else f'(Some (STag {cq_str(s.tag.name)} {cq_opt(s.tag.prefix, cq_str)}))'
+    attrs = cq_list([f'(SAttr {cq_str(a.attribute)} {cq_str(a.prefix)} {cq_pat(a.pattern)} {cq_pat(a.xml_type_pattern)})' for a in s.attributes])
+    nths = cq_list([f'(SNth ({n.a})%Z {"true" if n.n else "false"} ({n.b})%Z {"true" if n.of_type else "false"} '
+                    f'{"true" if n.last else "false"} {cq_sl(n.selectors)})' for n in s.nth])
+    subs = cq_list([cq_sl(x) for x in s.selectors])
+    contains = cq_list([f'(SContains {cq_list([cq_str(t) for t in c.text])} {"true" if c.own else "false"})' for c in s.contains])
+    langs = cq_list([cq_list([cq_str(t) for t in l.languages]) for l in s.lang])
+    return (f'(Sel {tag} {cq_list([cq_str(i) for i in s.ids])} {cq_list([cq_str(i) for i in s.classes])} {attrs} {nths} {subs} '
+            f'{cq_sl(s.relation)} {cq_opt(s.rel_type, cq_str)} {contains} {langs} {s.flags}%N)')
+
+
+def cq_sl(l):
+    return f'(SL {cq_list([cq_sel(s) for s in l.selectors])} {"true" if l.is_not else "false"} {"true" if l.is_html else "false"})'
